@@ -53,8 +53,89 @@ class Fn:
         return f"Fn({self._tag!r})"
 
 
+import enum
+
+
+class State(str, enum.Enum):          # str subclass whose str() is not its raw characters ('State.UP' vs 'up')
+    UP = "up"
+    DOWN = "down"
+
+
+class Masked(str):
+    def __str__(self):
+        return "*" * len(self)
+
+
+class Level(enum.IntEnum):
+    LOW = 1
+    HIGH = 9
+
+    def __str__(self):
+        return "level-" + self.name.lower()
+
+
+class Celsius(float):
+    def __str__(self):
+        return "%.1fC" % float(self)
+
+
+class Count(int):
+    def __str__(self):
+        return "#%d" % int(self)
+
+    __repr__ = int.__repr__
+
+
+SUBCLS = {"State.UP": State.UP, "State.DOWN": State.DOWN, "Level.HIGH": Level.HIGH}
+_REF = [False]        # True while the CPython-only reference renderings are computed
+
+
+class Raiser:
+    """value whose str() raises (repr is fine): flattening an event that uses it fails part-way"""
+
+    def __str__(self):
+        raise ValueError("unprintable")
+
+    def __repr__(self):
+        return "Raiser()"
+
+
+class Nested:
+    """value whose str()/repr() re-enters the logger: it flattens and formats ANOTHER event"""
+
+    def __init__(self, inner):
+        self._inner = inner
+
+    def _text(self):
+        if _REF[0]:
+            return expected(self._inner)          # reference: no twisted code involved
+        from twisted.logger import formatEvent
+        from twisted.logger._flatten import flattenEvent
+        e = dict({k: build(v) for k, v in self._inner["values"].items()}, log_format=fmt_string(self._inner["items"]))
+        flattenEvent(e)
+        return formatEvent(e)
+
+    def __str__(self):
+        return self._text()
+
+    def __repr__(self):
+        return "Nested<" + self._text() + ">"
+
+
 def build(v):
     t = v["t"]
+    if t == "sub":
+        return SUBCLS[v["v"]]
+    if t == "masked":
+        return Masked(v["v"])
+    if t == "celsius":
+        return Celsius(v["v"])
+    if t == "count":
+        return Count(v["v"])
+    if t == "raiser":
+        return Raiser()
+    if t == "nested":
+        return Nested(v["inner"])
     if t == "callobj":
         return Fn(v["tag"], build(v["ret"]))
     if t == "bool":
@@ -120,6 +201,15 @@ def resolve(name: str, event: dict):
 
 def renderings(case):
     """per field: (full | None, str, repr) computed with CPython only"""
+    was = _REF[0]
+    _REF[0] = True
+    try:
+        return _renderings(case)
+    finally:
+        _REF[0] = was
+
+
+def _renderings(case):
     event = {k: build(v) for k, v in case["values"].items()}
     out = []
     for it in case["items"]:
@@ -140,7 +230,10 @@ def renderings(case):
             full = format(cv, spec)
         except Exception:
             full = None
-        out.append((full, str(v), repr(v)))
+        try:
+            out.append((full, str(v), repr(v)))
+        except Exception:
+            out.append("unresolvable")
     return out
 
 
@@ -158,6 +251,31 @@ def expected(case):
 
 
 def impl(case) -> str:
+    """a case is one event, or a HISTORY: events handled one after the other in this process, some of which fail
+    part-way through flattening / flat-formatting; only the well-formed steps are observed"""
+    if case.get("kind") != "history":
+        return impl_step(case)
+    from twisted.logger import _flatten, eventAsJSON
+    out = []
+    for st in case["steps"]:
+        if st.get("bad"):
+            e = dict({k: build(v) for k, v in st["values"].items()}, log_format=fmt_string(st["items"]))
+            try:
+                if st["bad"] == "flatformat":
+                    e["log_flattened"] = {}
+                    _flatten.flatFormat(e)
+                elif st["bad"] == "json":
+                    eventAsJSON(e)
+                else:
+                    _flatten.flattenEvent(e)
+            except Exception:
+                pass
+        else:
+            out.append(impl_step(st))
+    return ";".join(out)
+
+
+def impl_step(case) -> str:
     from twisted.logger import _format, _flatten, eventAsJSON, eventFromJSON
     fmt = fmt_string(case["items"])
     mk = lambda: dict({k: build(v) for k, v in case["values"].items()}, log_format=fmt)
@@ -209,7 +327,29 @@ def which_of(flat, orig):
     return "flattened" if flat != orig else "JSON-round-tripped"
 
 
+def good_steps(case):
+    return [st for st in case["steps"] if not st.get("bad")] if case.get("kind") == "history" else [case]
+
+
 def oracle(case, obs):
+    """history independence: every well-formed event formats like its original whatever was handled before it"""
+    if case.get("kind") != "history":
+        return oracle_step(case, obs)
+    steps = good_steps(case)
+    parts = obs.split(";") if steps else []
+    if len(parts) != len(steps):
+        return Failure(case, "malformed observation", "harness-history")
+    for k, (st, o) in enumerate(zip(steps, parts)):
+        f = oracle_step(st, o)
+        if f is not None:
+            tag = "history:" + f.tag if f.tag in ("flat-differs", "json-differs", "original-format-differs") else f.tag
+            return Failure(case, f"well-formed event #{k} of the history ({fmt_string(st['items'])!r}), handled after "
+                                 f"{[fmt_string(x['items']) + (' [fails]' if x.get('bad') else '') for x in case['steps']]}: "
+                                 + f.reason, tag)
+    return None
+
+
+def oracle_step(case, obs):
     if obs.startswith("PARSE-MISMATCH"):
         return Failure(case, "generator produced a format string that string.Formatter parses differently", "harness-parse")
     orig, flat, js = obs.split("|")
@@ -223,8 +363,8 @@ def oracle(case, obs):
         want = "=" + exp.encode("utf-8").hex()
         if orig != want:
             return Failure(case, "formatting the ORIGINAL event does not give the text str.format semantics give "
-                                 f"(got {orig[:60]}, expected {want[:60]}): attribute / index / call resolution in "
-                                 "formatWithCall is broken", "original-format-differs")
+                                 f"(got {orig[:60]}, expected {want[:60]}): field resolution / rendering on the original "
+                                 "event's own formatting path is wrong", "original-format-differs")
     if flat == orig and js == orig:
         return None
     mid = [it for it in case["items"] if it.get("name") is not None and "()" in it["name"][:-2]]
@@ -260,6 +400,13 @@ def ctext(s: str) -> str:
 
 
 def to_coq(case):
+    terms = [to_coq_step(st) for st in good_steps(case)]
+    if any(t is None for t in terms):
+        return None
+    return coq_list(terms, "(list item)")
+
+
+def to_coq_step(case):
     rs = renderings(case)
     if any(r == "unresolvable" for r in rs):
         return None
@@ -279,6 +426,11 @@ def to_coq(case):
 
 
 def model_equal(case, impl_obs, model_out):
+    a, b = impl_obs.split(";"), model_out.split(";")
+    return len(a) == len(b) and all(model_equal_step(x, y) for x, y in zip(a, b))
+
+
+def model_equal_step(impl_obs, model_out):
     # model prints orig|flat ; the JSON text must equal the flattened one
     parts = impl_obs.split("|")
     return len(parts) == 3 and parts[0] + "|" + parts[1] == model_out and parts[2] == parts[1]
@@ -317,6 +469,13 @@ VALUES = {
                                 "name": {"t": "str", "v": "tw"}}},
     "counts": {"t": "idict", "v": [[200, {"t": "int", "v": 17}], [404, {"t": "int", "v": 2}]]},
     "nest": {"t": "dict", "v": {"by": {"t": "idict", "v": [[1, {"t": "str", "v": "one"}]]}}},
+    # str / int / float subclasses whose str() is not their raw payload
+    "st": {"t": "sub", "v": "State.UP"}, "mask": {"t": "masked", "v": "secret"}, "lvl": {"t": "sub", "v": "Level.HIGH"},
+    "temp": {"t": "celsius", "v": "21.5"}, "cnt": {"t": "count", "v": 3},
+    "link": _o("link", state={"t": "sub", "v": "State.DOWN"}, pw={"t": "masked", "v": "pw"}),
+    "sts": {"t": "list", "v": [{"t": "sub", "v": "State.UP"}, {"t": "masked", "v": "abc"}, {"t": "count", "v": 7}]},
+    "stf": {"t": "fn", "ret": {"t": "sub", "v": "State.DOWN"}},
+    "smap": {"t": "dict", "v": {"k": {"t": "masked", "v": "zz"}, "n": {"t": "sub", "v": "Level.HIGH"}}},
     # containers of objects with methods
     "ps": {"t": "list", "v": [_o("p0"), _o("p1", p=_o("p1inner"))]},
     "pd": {"t": "dict", "v": {"k": _o("pk"), "db": _o("pdb", kids={"t": "list", "v": [_o("pdbkid")]})}},
@@ -326,6 +485,8 @@ NAMES = ["x", "y", "z", "n", "l", "l[1]", "l[0]", "d", "d[k]", "d[n]", "o", "o.a
          "c", "c()", "total", "total()", "o.m", "o.p.m",
          "ps[0].m()", "ps[1].p.m()", "ps[1].m", "pd[k].m()", "pd[db].m()", "pd[db].kids[0].m()", "o.kids[1].m()",
          "o.kids[1].p.m()", "o.reg[k].m()", "o.reg[n].m", "ps[0]", "pd[db]", "o.kids[0]",
+         "st", "mask", "lvl", "temp", "cnt", "link.state", "link.pw", "sts[0]", "sts[1]", "sts[2]", "sts", "stf()",
+         "smap[k]", "smap[n]", "smap",
          "line", "cafe", "hd[host]", "hd", "chunks[0]", "chunks[1]", "chunks", "frame.payload", "rd()",
          "flag", "addr", "addr[1]", "addr[0]", "routes", "routes[0]", "routes[0][1]", "info[version]", "info",
          "info[version][0]", "counts", "counts[404]", "counts[200]", "nest[by]", "nest[by][1]", "nest"]
@@ -387,9 +548,72 @@ def rand_case(rng, faithful_only=False):
     return {"items": items, "values": vals}
 
 
+SHARED = ["x", "y", "o", "d[k]", "l[1]", "st", "addr", "o.p"]
+
+
+def rand_history(rng):
+    """events handled one after the other; some fail part-way (after the KeyFlattener has counted some fields),
+    the well-formed ones share field names and conversions with them"""
+    shared = [{"lit": rng.choice(["", " ", "u="]), "name": rng.choice(SHARED), "conv": rng.choice(["", "s", "r"]), "spec": ""}
+              for _ in range(rng.randrange(1, 3))]
+
+    def bad():
+        kind = rng.choice(["flatten", "flatten", "json", "flatformat"])
+        items = [dict(i) for i in shared]
+        if kind != "flatformat":
+            items.append({"lit": " requested ", "name": rng.choice(["resource.path", "o.nosuch", "boom", "l[9]", "d[zz]"]),
+                          "conv": rng.choice(["", "s"]), "spec": ""})
+        vals = {k: v for k, v in VALUES.items() if k in _roots(items)}
+        if "boom" in _roots(items):
+            vals["boom"] = {"t": "raiser"}
+        return {"bad": kind, "items": items, "values": vals}
+
+    def good():
+        items = [dict(i) for i in shared if rng.random() < 0.8] or [dict(shared[0])]
+        if rng.random() < 0.5:
+            items.append(dict(rng.choice(shared), lit=" again "))
+        if rng.random() < 0.4:
+            items.append({"lit": " logged in ", "name": rng.choice(PLAIN), "conv": "", "spec": ""})
+        return {"items": items, "values": {k: v for k, v in VALUES.items() if k in _roots(items)}}
+    steps = []
+    for _ in range(rng.randrange(1, 4)):
+        steps.append(bad() if rng.random() < 0.6 else good())
+    steps.append(good())
+    return {"kind": "history", "steps": steps}
+
+
+def rand_nested(rng):
+    """a value whose str()/repr() flattens and formats another event, referenced between repeated fields"""
+    f = lambda name, conv="", lit=" ": {"lit": lit, "name": name, "conv": conv, "spec": ""}
+    a = rng.choice(["x", "y", "st", "o"])
+    inner_items = [f(a, rng.choice(["", "r"]), "inner "), f(rng.choice(["x", "d[k]", a]), "", "/")]
+    if rng.random() < 0.5:
+        inner_items.append(f(a, "", "/"))
+    inner = {"items": inner_items, "values": {k: v for k, v in VALUES.items() if k in _roots(inner_items)}}
+    shape = rng.randrange(3)
+    if shape == 0:
+        items = [f("cause", rng.choice(["", "r"]), "["), f("cause", "", "] then ["), {"lit": "]", "name": None}]
+    elif shape == 1:
+        items = [f(a, "", ""), f("cause", rng.choice(["", "s", "r"])), f(a, ""), f(a, "r")]
+    else:
+        items = [f("cause", ""), f(a, ""), f("cause", "r"), f(a, ""), f("cause", "")]
+    vals = {k: v for k, v in VALUES.items() if k in _roots(items)}
+    vals["cause"] = {"t": "nested", "inner": inner}
+    return {"items": items, "values": vals}
+
+
 def gen(rng, tier):
     n = 1000 if tier == "quick" else 8000
-    return [rand_case(rng, faithful_only=rng.random() < 0.6) for _ in range(n)]
+    out = []
+    for _ in range(n):
+        k = rng.random()
+        if k < 0.12:
+            out.append(rand_history(rng))
+        elif k < 0.2:
+            out.append(rand_nested(rng))
+        else:
+            out.append(rand_case(rng, faithful_only=rng.random() < 0.6))
+    return out
 
 
 def corpus():
@@ -400,6 +624,24 @@ def corpus():
         {"items": [I("", "y", "a", "")], "values": VALUES},
         {"items": [I("", "x", "", "{w}")], "values": VALUES},
         {"items": [I("", "g().a")], "values": VALUES},
+        # history: a flattenEvent that fails after counting {user}, then a well-formed event using {user}
+        {"kind": "history", "steps": [
+            {"bad": "flatten", "items": [I("", "y"), I(" requested ", "resource.path")], "values": {"y": VALUES["y"]}},
+            {"items": [I("", "y"), I(" logged in")], "values": {"y": VALUES["y"]}}]},
+        {"kind": "history", "steps": [
+            {"bad": "flatformat", "items": [I("", "x", "r")], "values": {"x": VALUES["x"]}},
+            {"bad": "json", "items": [I("", "x", "r"), I(" ", "boom")], "values": {"x": VALUES["x"], "boom": {"t": "raiser"}}},
+            {"items": [I("", "x", "r"), I(" ", "x", "r")], "values": {"x": VALUES["x"]}}]},
+        # nesting: str() of a value formats another flattened event between two uses of the same field
+        {"items": [I("[", "cause"), I("] then [", "cause"), I("]")],
+         "values": {"cause": {"t": "nested", "inner": {"items": [I("inner ", "x"), I("/", "x")], "values": {"x": VALUES["x"]}}}}},
+        {"items": [I("", "x"), I(" ", "cause"), I(" ", "x")],
+         "values": {"x": VALUES["x"],
+                    "cause": {"t": "nested", "inner": {"items": [I("inner ", "x")], "values": {"x": VALUES["x"]}}}}},
+        # str subclasses whose str() differs from the raw characters, through the JSON round trip
+        {"items": [I("link is ", "st"), I(" ", "st", "s"), I(" ", "mask")], "values": {k: VALUES[k] for k in ("st", "mask")}},
+        {"items": [I("", "link.state"), I(" ", "sts[1]"), I(" ", "stf()"), I(" ", "lvl"), I(" ", "temp"), I(" ", "cnt")],
+         "values": {k: VALUES[k] for k in ("link", "sts", "stf", "lvl", "temp", "cnt")}},
         # bytes (str(bytes) is the b'..' form) and JSON-native events with tuples / non-string keys
         {"items": [I("", "line"), I(" ", "line", "s"), I(" ", "cafe")], "values": {k: VALUES[k] for k in ("line", "cafe")}},
         {"items": [I("", "frame.payload"), I(" ", "hd[host]"), I(" ", "chunks[0]"), I(" ", "rd()")],
@@ -423,6 +665,15 @@ def corpus():
 
 
 def shrink(case):
+    if case.get("kind") == "history":
+        steps = case["steps"]
+        for i in range(len(steps) - 1):
+            yield dict(case, steps=steps[:i] + steps[i + 1:])
+        for i, st in enumerate(steps):
+            for j in range(len(st["items"])):
+                if len(st["items"]) > 1:
+                    yield dict(case, steps=steps[:i] + [dict(st, items=st["items"][:j] + st["items"][j + 1:])] + steps[i + 1:])
+        return
     items = case["items"]
     for i in range(len(items)):
         yield dict(case, items=items[:i] + items[i + 1:])
@@ -438,6 +689,10 @@ def shrink(case):
 
 
 def hist(case, obs):
+    if case.get("kind") == "history":
+        return "history:" + "".join("b" if st.get("bad") else "g" for st in case["steps"])
+    if any(v.get("t") == "nested" for v in case["values"].values()):
+        return "nested-reentrant-value"
     f = [it for it in case["items"] if it.get("name") is not None]
     cls = "ascii" if any(it["conv"] == "a" for it in f) else ("spec" if any(it["spec"] for it in f) else "faithful")
     rep = "repeat" if len({(it["name"], it["conv"], it["spec"]) for it in f}) < len(f) else "distinct"
@@ -449,21 +704,26 @@ SPEC = Spec(
     gen=gen,
     impl=impl,
     oracle=oracle,
-    coq_header="From C56 Require Import Model Run.",
-    coq_fn="run_show",
+    coq_header="From C56 Require Import Model Run.\n"
+               "Definition run_hist (l : list (list item)) : string := String.concat \";\" (map run_show l).",
+    coq_fn="run_hist",
     to_coq=to_coq,
     model_equal=model_equal,
     corpus=corpus,
     shrink=shrink,
     histogram=hist,
-    nontrivial=lambda c, o: not o.startswith("!") and any(it.get("name") for it in c["items"]),
+    nontrivial=lambda c, o: not o.startswith("!") and any(it.get("name") for st in good_steps(c) for it in st["items"]),
     rule="1-6 items per format string: literals (incl. doubled braces, non-ASCII, ':', '!', '/2'), fields over nested "
          "values (keys, attributes, [int] / [str] indices in any mix before a trailing call, call syntax, calls returning "
          "objects, callable objects and bound methods used BOTH called and uncalled in one format string with "
          "different conversions, containers of objects with methods; bytes values (ASCII and non-ASCII UTF-8) at top "
          "level / attribute / index / returned by a call; tuples at any depth and dicts with int keys, whole and "
          "indexed; 30% of events made of JSON-native values only, each event carrying only the values its fields "
-         "use), conversions none/s/r/a, specs "
+         "use; str/int/float subclasses and str/int Enums whose str() differs from the raw payload; 12% HISTORIES "
+         "(events handled one after the other in the process, some failing part-way through flattenEvent / "
+         "eventAsJSON / flatFormat after fields were counted, followed by well-formed events sharing those fields) "
+         "and 8% values whose str()/repr() re-enter flattenEvent/formatEvent on another event between repeated "
+         "fields), conversions none/s/r/a, specs "
          "(alignment, width, precision, type, nested {w}); repeated fields to exercise the occurrence numbering; 60% "
          "of cases restricted to the faithful fragment (empty spec, no !a).  non-trivial = the original formats and "
          "there is at least one field",
